@@ -284,6 +284,7 @@ pub fn case(c: &Case) -> CaseOut {
     }
     // (2) isolation: everyone but the target completed and lost nothing
     let completed = done(&w, &client_conn, target);
+    let mut tiny_reset = false;
     for (i, k) in client_conn.iter().enumerate() {
         let Some(k) = k else { continue };
         if Some(i) == target {
@@ -295,6 +296,16 @@ pub fn case(c: &Case) -> CaseOut {
         }
         for q in both {
             if !w.conns[q].app.lost.is_empty() {
+                // Reset tokens are a function of the connection ID value. With 1-3 byte IDs an endpoint
+                // soon issues a value again for which it once sent a stateless reset; a late copy of that
+                // reset is then a valid reset of the new owner's connection (a consequence of the
+                // configuration, like the routing collisions above)
+                let peer_ep = w.conns[q].peer.map(|p| w.conns[p].ep);
+                let tiny_peer_cids = peer_ep.is_some_and(|e| (1..4).contains(&w.eps[e].spec.cid_len));
+                if tiny_peer_cids && w.conns[q].app.lost.iter().all(|l| l.contains("Reset")) && w.stats.stateless > 0 {
+                    tiny_reset = true;
+                    continue;
+                }
                 if std::env::var("QV_TRACE").is_ok() {
                     eprintln!("{}", w.dump_trace(0, 400));
                 }
@@ -607,6 +618,9 @@ pub fn case(c: &Case) -> CaseOut {
     let mut labels = vec![];
     if w.stale_abandoned > 0 {
         labels.push("stale-accept-abandoned");
+    }
+    if tiny_reset {
+        labels.push("late-reset-hit-reissued-tiny-cid");
     }
     if live_max >= 3 {
         labels.push("three-or-more-live");
